@@ -11,12 +11,23 @@ import (
 // C20 — shared and cyclic pointers survive a round trip with recursion support.
 // Oracle M-ISO: a lockstep walk from the two roots must build a bijection between pointer identities.
 
+type GInner struct {
+	P *GNode
+	N int
+}
+
 type GNode struct {
 	ID    int
 	Next  *GNode
 	Kids  []*GNode
 	Named map[string]*GNode
 	Any   interface{}
+	// pointers held inside by-value containers
+	In   GInner
+	Arr  [2]*GNode
+	Vals []GInner
+	// a pointer to a plain integer, shared between nodes
+	Num *int64
 }
 
 type C20NodeSpec struct {
@@ -24,11 +35,16 @@ type C20NodeSpec struct {
 	Kids  []int          `json:"kids"`
 	Named map[string]int `json:"named,omitempty"`
 	Any   int            `json:"any"` // -1 nil, -2 scalar, >= 0 pointer to node
+	In    int            `json:"in"`  // In.P: -1 nil
+	Arr   [2]int         `json:"arr"` // -1 nil
+	Vals  []int          `json:"vals,omitempty"`
+	Num   int            `json:"num"` // index into the case's pool of shared integers, -1 nil
 }
 
 type C20Case struct {
 	Format string        `json:"format"`
 	Nodes  []C20NodeSpec `json:"nodes"`
+	Nums   []int64       `json:"nums,omitempty"` // pool of integers that nodes point to (shared *int64)
 }
 
 func (c *C20Case) build() *GNode {
@@ -36,8 +52,27 @@ func (c *C20Case) build() *GNode {
 	for i := range nodes {
 		nodes[i] = &GNode{ID: i}
 	}
+	nums := make([]*int64, len(c.Nums))
+	for i := range nums {
+		v := c.Nums[i]
+		nums[i] = &v
+	}
 	for i, s := range c.Nodes {
 		n := nodes[i]
+		if s.In >= 0 {
+			n.In = GInner{P: nodes[s.In], N: i}
+		}
+		for j, a := range s.Arr {
+			if a >= 0 {
+				n.Arr[j] = nodes[a]
+			}
+		}
+		for _, v := range s.Vals {
+			n.Vals = append(n.Vals, GInner{P: nodes[v], N: v})
+		}
+		if s.Num >= 0 && s.Num < len(nums) {
+			n.Num = nums[s.Num]
+		}
 		if s.Next >= 0 {
 			n.Next = nodes[s.Next]
 		}
@@ -93,6 +128,15 @@ func (c *C20Case) features() (shared bool, cyclic bool) {
 		if s.Any >= 0 {
 			outs = append(outs, s.Any)
 		}
+		if s.In >= 0 {
+			outs = append(outs, s.In)
+		}
+		for _, a := range s.Arr {
+			if a >= 0 {
+				outs = append(outs, a)
+			}
+		}
+		outs = append(outs, s.Vals...)
 		for _, o := range outs {
 			indeg[o]++
 			if indeg[o] > 1 {
@@ -111,6 +155,9 @@ func (c *C20Case) features() (shared bool, cyclic bool) {
 	dfs(0)
 	return
 }
+
+// isoNums: bijection between the shared *int64 of the original and of the copy (reset per case).
+var isoNums = map[*int64]*int64{}
 
 func iso(a, b *GNode, fwd, rev map[*GNode]*GNode, path string) error {
 	if a == nil || b == nil {
@@ -134,6 +181,48 @@ func iso(a, b *GNode, fwd, rev map[*GNode]*GNode, path string) error {
 	}
 	if err := iso(a.Next, b.Next, fwd, rev, path+".Next"); err != nil {
 		return err
+	}
+	if err := iso(a.In.P, b.In.P, fwd, rev, path+".In.P"); err != nil {
+		return err
+	}
+	if a.In.N != b.In.N {
+		return fmt.Errorf("%s.In.N: %d, expected %d", path, b.In.N, a.In.N)
+	}
+	for i := range a.Arr {
+		if err := iso(a.Arr[i], b.Arr[i], fwd, rev, fmt.Sprintf("%s.Arr[%d]", path, i)); err != nil {
+			return err
+		}
+	}
+	if len(a.Vals) != len(b.Vals) {
+		return fmt.Errorf("%s.Vals: %d elements, expected %d", path, len(b.Vals), len(a.Vals))
+	}
+	for i := range a.Vals {
+		if a.Vals[i].N != b.Vals[i].N {
+			return fmt.Errorf("%s.Vals[%d].N: %d, expected %d", path, i, b.Vals[i].N, a.Vals[i].N)
+		}
+		if err := iso(a.Vals[i].P, b.Vals[i].P, fwd, rev, fmt.Sprintf("%s.Vals[%d].P", path, i)); err != nil {
+			return err
+		}
+	}
+	if (a.Num == nil) != (b.Num == nil) {
+		return fmt.Errorf("%s.Num: nil-ness differs", path)
+	}
+	if a.Num != nil {
+		if *a.Num != *b.Num {
+			return fmt.Errorf("%s.Num: %d, expected %d", path, *b.Num, *a.Num)
+		}
+		if m, ok := isoNums[a.Num]; ok {
+			if m != b.Num {
+				return fmt.Errorf("%s.Num: the original shares this integer with another node, the copy does not", path)
+			}
+		} else {
+			for oa, ob := range isoNums {
+				if ob == b.Num && oa != a.Num {
+					return fmt.Errorf("%s.Num: the copy shares an integer where the original has two distinct ones", path)
+				}
+			}
+			isoNums[a.Num] = b.Num
+		}
 	}
 	if len(a.Kids) != len(b.Kids) {
 		return fmt.Errorf("%s.Kids: %d elements, expected %d", path, len(b.Kids), len(a.Kids))
@@ -189,8 +278,31 @@ func init() {
 			c := &C20Case{Format: rapid.SampledFrom([]string{"cbe", "cte"}).Draw(t, "format")}
 			n := rapid.IntRange(1, 12).Draw(t, "n")
 			pickNode := func(label string) int { return rapid.IntRange(0, n-1).Draw(t, label) }
+			byValue := !findingOpen("S80-pointers-inside-by-value-containers")
+			if !byValue {
+				ctx.Stats.Exclude("S80-pointers-inside-by-value-containers")
+			}
+			for i, k := 0, rapid.IntRange(0, 2).Draw(t, "nnums"); i < k; i++ {
+				c.Nums = append(c.Nums, rapid.SampledFrom([]int64{0, 5, 100, 101, 300, -7, 70000, 1 << 40, -(1 << 40)}).Draw(t, "numv"))
+			}
 			for i := 0; i < n; i++ {
-				s := C20NodeSpec{Next: -1, Any: -1}
+				s := C20NodeSpec{Next: -1, Any: -1, In: -1, Arr: [2]int{-1, -1}, Num: -1}
+				if byValue && rapid.IntRange(0, 3).Draw(t, "hasin") == 0 {
+					s.In = pickNode("in")
+				}
+				if byValue {
+					for j := range s.Arr {
+						if rapid.IntRange(0, 3).Draw(t, "hasarr") == 0 {
+							s.Arr[j] = pickNode("arr")
+						}
+					}
+					for j, k := 0, rapid.IntRange(0, 2).Draw(t, "nvals")*rapid.IntRange(0, 1).Draw(t, "hasvals"); j < k; j++ {
+						s.Vals = append(s.Vals, pickNode("val"))
+					}
+				}
+				if len(c.Nums) > 0 && rapid.IntRange(0, 2).Draw(t, "hasnum") == 0 {
+					s.Num = rapid.IntRange(0, len(c.Nums)-1).Draw(t, "num")
+				}
 				if rapid.IntRange(0, 2).Draw(t, "hasnext") != 0 {
 					s.Next = pickNode("next")
 				}
@@ -254,6 +366,7 @@ func init() {
 			if !ok {
 				return fmt.Errorf("result is a %v, expected *GNode", reflect.TypeOf(res))
 			}
+			isoNums = map[*int64]*int64{}
 			if err := iso(root, cp, map[*GNode]*GNode{}, map[*GNode]*GNode{}, "$"); err != nil {
 				return fmt.Errorf("graph shape changed: %v\ndoc=%s", err, docdump(c.Format, doc))
 			}
